@@ -499,10 +499,37 @@ fn list_formula_is_empty(
             }
         }
     }
-    match list_inhabited(&mut prefix_items, &items, neg, builder)? {
-        ListInhabited::Yes => Ok(IsEmptyStatus::NotEmpty),
-
-        ListInhabited::No => Ok(IsEmptyStatus::IsEmpty),
+    // Decide inhabitation one list length at a time: against a list of fixed length every negative
+    // is a tuple of that length (or cannot match at all), which is the case `list_inhabited` decides
+    // exactly. Positions past the longest prefix are interchangeable, so one extra position per
+    // negative is enough.
+    let mut max_len = prefix_items.len();
+    let mut neg_count = 0;
+    let mut n = neg.clone();
+    while let Some(c) = n {
+        let nt = match c.atom {
+            Atom::List(a) => builder.get_list_atomic(a),
+            Atom::Set(a) => builder.get_set_atomic(a),
+            _ => unreachable!(),
+        };
+        max_len = std::cmp::max(max_len, nt.prefix_items.len());
+        neg_count += 1;
+        n = c.next.clone();
+    }
+    let never = Rc::new(SemTypeContext::never());
+    loop {
+        if let ListInhabited::Yes =
+            list_inhabited(&mut prefix_items.clone(), &never, neg, builder)?
+        {
+            return Ok(IsEmptyStatus::NotEmpty);
+        }
+        if prefix_items.len() >= max_len + neg_count
+            || items.is_never()
+            || items.is_empty(builder)?
+        {
+            return Ok(IsEmptyStatus::IsEmpty);
+        }
+        prefix_items.push(items.clone());
     }
 }
 pub fn list_is_empty(bdd: &Rc<Bdd>, builder: &mut SemTypeContext) -> Result<IsEmptyStatus> {
